@@ -11,6 +11,10 @@ sys.path.insert(0, os.environ["LOKY_REPO"])
 prog = json.load(open(sys.argv[1]))
 outdir = sys.argv[2]
 warnings.simplefilter("ignore")
+if prog.get("werror"):
+    # the interpreter runs with warnings as errors (-W error): the flag is handed down to every child it starts, the
+    # resource tracker included (the driver's own filters stay as they are)
+    sys.warnoptions.append("error")
 from loky.backend import get_context
 from loky.process_executor import ProcessPoolExecutor, BrokenProcessPool
 from props import c13_task as T
